@@ -41,6 +41,11 @@ def lookup : List (String × Kind) → String → Kind
 /-- model: the token the scanner produces for the decoded spelling (single characters are never looked up) -/
 def tokenKind (name : String) : Kind := if name.length > 1 then lookup table name else .identifier
 
+/-- … and for a spelling that contains an escape: a reserved word is then the token KEYWORD ("reserved, but not the keyword";
+    lexer.go, identifier arm) -/
+def tokenKindSpelled (escaped : Bool) (name : String) : Kind :=
+  if escaped && decide (tokenKind name ≠ .identifier) then .future else tokenKind name
+
 /-- ES5 §7.6.1.1 Keywords, §7.6.1.2 FutureReservedWords (non-strict code), §7.8.1-2 literals -/
 def reservedWords : List String :=
   [ "break", "case", "catch", "continue", "debugger", "default", "delete", "do", "else", "finally", "for", "function", "if", "in",
